@@ -539,6 +539,9 @@ expandfunc(struct macro *m)
 		}
 		if (t->kind == TRPAREN)
 			break;
+		/* a comma after the argument for the last parameter starts one argument too many, even an empty one */
+		if (i + 1 == m->nparam)
+			error(&t->loc, "too many arguments for macro '%s'", m->name);
 		t = rawnext();
 	}
 	if (i + 1 < m->nparam)
